@@ -468,9 +468,12 @@ pub fn node_addr(i: usize) -> SocketAddr {
 }
 
 pub async fn make_node(world: &World, i: usize, spec: &NodeSpec) -> SimNode {
+    make_node_at(world, node_addr(i), spec).await
+}
+
+pub async fn make_node_at(world: &World, addr: SocketAddr, spec: &NodeSpec) -> SimNode {
     // instrumented lock-section boundaries yield once: other runnable tasks interleave there
     verif_hooks::set_sched_yields(1);
-    let addr = node_addr(i);
     let tid_hex = hex::encode(spec.tid);
     let sock = world.add_endpoint(spec.tid, addr, false);
     let app_id = spec.app_id.clone().unwrap_or_else(|| tid_hex.clone());
